@@ -332,7 +332,7 @@ func newFioTrio() *fioTrio {
 
 func (t *fioTrio) cleanup() { t.mem.cleanup(); t.ore.cleanup(); t.osw.cleanup() }
 
-func guarded(f func() string) (res string) {
+func fioGuarded(f func() string) (res string) {
 	defer func() {
 		if r := recover(); r != nil {
 			res = "PANIC"
@@ -344,11 +344,11 @@ func guarded(f func() string) (res string) {
 // step applies one op to the three worlds and renders the observation of the step
 func (t *fioTrio) step(op string) string {
 	tk := strings.Fields(op)
-	m := guarded(func() string { return t.mem.apply(tk) })
-	o := guarded(func() string { return t.ore.apply(tk) })
-	s := guarded(func() string { return t.osw.apply(tk) })
+	m := fioGuarded(func() string { return t.mem.apply(tk) })
+	o := fioGuarded(func() string { return t.ore.apply(tk) })
+	s := fioGuarded(func() string { return t.osw.apply(tk) })
 	return fmt.Sprintf("m:%s o:%s s:%s vm:%s vo:%s vs:%s", m, o, s,
-		guarded(t.mem.view), guarded(t.ore.view), guarded(t.osw.view))
+		fioGuarded(t.mem.view), fioGuarded(t.ore.view), fioGuarded(t.osw.view))
 }
 
 func (t *fioTrio) key() string {
